@@ -17,6 +17,7 @@ import (
 	"oras.land/oras-go/v2/errdef"
 	orasreg "oras.land/oras-go/v2/registry"
 	"oras.land/oras-go/v2/registry/remote"
+	"oras.land/oras-go/v2/zsim/simos"
 	"oras.land/oras-go/v2/zsim/simrt"
 )
 
@@ -39,6 +40,10 @@ type ListParams struct {
 	// ocitags: tasks that list while the tags are being set and removed, and the tags removed again
 	Listers int   `json:"listers,omitempty"`
 	Untag   []int `json:"untag,omitempty"`
+	// DeleteFail (with Listers): at the end the tagged content is deleted, and the k-th mutating
+	// disk operation of that Delete - they all belong to its index save - fails: the Delete is
+	// refused and no listing may miss a tag because of it
+	DeleteFail int `json:"delete_fail,omitempty"`
 }
 
 type listProp struct{}
@@ -48,7 +53,7 @@ func init() { register(&listProp{}) }
 func (p *listProp) ID() string { return "C15" }
 
 func (p *listProp) Rule() string {
-	return "scenario = item list + client page size + server page cap + Link header form + last + callback failure at page j (a plain error, or one that wraps a sentinel error of the library: not-found, already-exists, unsupported, size-exceeds-limit, EOF) + artifact-type filter applied by the server (header/annotation) or not + document padding around MaxMetadataBytes, for Tags, Repositories, Referrers (API and tag schema) and the OCI-layout Tags listing (half of those with 1-2 tasks listing while the tags are set and removed: each such listing is sorted, duplicate-free, holds every tag whose Tag had returned and whose Untag had not begun, and nothing that was never set or whose Untag had returned); non-trivial = the result spans >=2 pages, or a filter/limit/last/callback failure is in play; distinct = distinct (request trace hash, delivered list hash)"
+	return "scenario = item list + client page size + server page cap + Link header form + last + callback failure at page j (a plain error, or one that wraps a sentinel error of the library: not-found, already-exists, unsupported, size-exceeds-limit, EOF) + artifact-type filter applied by the server (header/annotation) or not + document padding around MaxMetadataBytes, for Tags, Repositories, Referrers (API and tag schema) and the OCI-layout Tags listing (half of those with 1-2 tasks listing while the tags are set and removed: each such listing is sorted, duplicate-free, holds every tag whose Tag had returned and whose Untag had not begun, and nothing that was never set or whose Untag had returned; in 40% of those a Delete of the tagged content follows whose index save meets a disk error - it is refused and no listing may miss a tag because of it); non-trivial = the result spans >=2 pages, or a filter/limit/last/callback failure is in play; distinct = distinct (request trace hash, delivered list hash)"
 }
 
 func (p *listProp) Components() map[string][]string {
@@ -128,6 +133,9 @@ func (p *listProp) Gen(r *Rand, tier string, idx int) any {
 		lp.Listers = r.Range(1, 2)
 		for k := r.Range(0, 3); k > 0; k-- {
 			lp.Untag = append(lp.Untag, r.Intn(len(lp.Items)))
+		}
+		if r.Chance(0.4) {
+			lp.DeleteFail = r.Range(1, 3)
 		}
 	}
 	if (lp.Kind == "tags" || lp.Kind == "referrers") && lp.Last == "" && lp.FailAtPage == 0 && r.Chance(0.25) {
@@ -418,6 +426,16 @@ func (p *listProp) run(rc *RunCtx, lp *ListParams, info *RunInfo) *Verdict {
 				}
 				untagged++
 			}
+			if lp.DeleteFail > 0 && ociErr == nil {
+				simos.SetFailAtMut(lp.DeleteFail)
+				derr := s.Delete(ctx, d)
+				simos.SetFailAtMut(0)
+				if derr == nil {
+					ociErr = errors.New("the Delete that was to fail succeeded")
+				} else {
+					info.Probes["oci_listing_beside_refused_delete"]++
+				}
+			}
 			finished = true
 			for l := 0; l < lp.Listers; l++ {
 				<-ldone
@@ -429,6 +447,10 @@ func (p *listProp) run(rc *RunCtx, lp *ListParams, info *RunInfo) *Verdict {
 		}
 	}
 	rc.MaxSteps = 4000 // a listing that needs more exchanges than this is looping
+	if lp.Kind == "ocitags" {
+		simos.Reset(simos.Config{Budget: 200000})
+		defer simos.Disable()
+	}
 	res = simrt.Run(rc.NextConfig(), main)
 	rc.Done(res)
 	info.absorb(res)
